@@ -254,6 +254,35 @@ def equal(a, b):
     return z3.And(*conds) if len(conds) > 1 else conds[0]
 
 
+def equal_units(a, b):
+    """equality when both strings are sequences of one-character units (literal chars / single digits)"""
+    pa, pb = _parts(a), _parts(b)
+    if pa is None or pb is None:
+        return NOTFOUND
+    ua, ub = _unit_pieces(pa), _unit_pieces(pb)
+    if ua is None or ub is None:
+        return NOTFOUND
+    if len(ua) != len(ub):
+        return False
+    conds = []
+    for x, y in zip(ua, ub):
+        if isinstance(x, str) and isinstance(y, str):
+            if x != y:
+                return False
+        elif isinstance(x, Digits) and isinstance(y, Digits):
+            if x.alphabet != y.alphabet:
+                return NOTFOUND
+            conds.append(x.n == y.n)
+        else:
+            d, c = (x, y) if isinstance(x, Digits) else (y, x)
+            if c not in d.alphabet:
+                return False
+            conds.append(d.n == d.alphabet.index(c))
+    if not conds:
+        return True
+    return z3.And(*conds) if len(conds) > 1 else conds[0]
+
+
 def lower(v):
     from .lib import str_from_parts
     ps = _parts(v)
@@ -330,3 +359,62 @@ def split_at_registered(I, v, idx):
     if reg is None or reg[1] is not v:
         return NOTFOUND
     return split_at_find(I, v, reg[2])
+
+
+def _unit_pieces(ps):
+    """pieces as a list of one-character units, or None if some piece has unknown length"""
+    out = []
+    for p in ps:
+        if isinstance(p, str):
+            out.extend(p)
+        elif isinstance(p, Digits) and p.single:
+            out.append(p)
+        else:
+            return None
+    return out
+
+
+def concrete_len(v):
+    ps = _parts(v)
+    if ps is None:
+        return NOTFOUND
+    u = _unit_pieces(ps)
+    return NOTFOUND if u is None else len(u)
+
+
+def char_at(v, i):
+    from .lib import str_from_parts
+    ps = _parts(v)
+    if ps is None or not isinstance(i, int):
+        return NOTFOUND
+    u = _unit_pieces(ps)
+    if u is None:
+        return NOTFOUND
+    if i < -len(u) or i >= len(u):
+        return 'IndexError'
+    return str_from_parts([u[i]])
+
+
+def lstrip_char(I, v, ch):
+    """v.lstrip(ch) for a single character ch, on a string of one-character units (forks on symbolic digits)"""
+    from .lib import str_from_parts
+    ps = _parts(v)
+    if ps is None or not isinstance(ch, str) or len(ch) != 1:
+        return NOTFOUND
+    u = _unit_pieces(ps)
+    if u is None:
+        return NOTFOUND
+    k = 0
+    while k < len(u):
+        p = u[k]
+        if isinstance(p, str):
+            if p == ch:
+                k += 1
+                continue
+            break
+        if ch in p.alphabet:
+            if I.branch(p.n == p.alphabet.index(ch)):
+                k += 1
+                continue
+        break
+    return str_from_parts(u[k:])
